@@ -61,7 +61,7 @@ class G:
             return f"({self.expr(d - 1)} {self.r.choice(CMPS)} {self.expr(d - 1)})"
         if c < 0.53:
             sh = self.r.choice(["<<", ">>"])
-            amt = self.r.choice([str(self.r.randint(0, 7)), f"({self.expr(d - 1)} & {self.r.choice([7, 15, 31])})"])
+            amt = self.r.choice([str(self.r.randint(0, 7)), f"({self.expr(d - 1)} & {self.r.choice([7, 15, 31])})", f"({self.expr(d - 1)} {self.r.choice(CMPS)} {self.expr(d - 1)})", f"(!{self.leaf()})"])
             lhs = self.expr(d - 1)
             if "shifts_narrow" in self.avoid or self.r.random() < 0.6:
                 lhs = f"(({self.r.choice(['uint32_t', 'uint64_t', 'int32_t', 'int64_t'])}) {lhs})"
@@ -205,6 +205,24 @@ def ops_depth2(rng: random.Random, n: int):
     return progs
 
 
+def ops_pairs(rng: random.Random):
+    """C02 depth 2, exhaustive over ordered operator pairs and both association shapes; types random per cell.
+    Includes comparison / logical results as operands of every operator (a << (b < c), (a && b) * c ...)."""
+    progs = []
+    for o1 in BIN_ALL:
+        for o2 in BIN_ALL:
+            for shape in (0, 1):
+                t1, t2, t3 = (rng.choice(TYPES) for _ in range(3))
+                c_src = rng.choice(["uiV", "siV", "PwV"])
+                e = f"((a {o1} b) {o2} c)" if shape == 0 else f"(a {o1} (b {o2} c))"
+                progs.append((f"pair;{o1};{o2};{shape};{t1};{t2};{t3}", f"{{ {t1} a = ({t1}) {src_for(t1)}; {t2} b = ({t2}) {src2_for(t2)}; {t3} c = ({t3}) {c_src}; RddV = (int64_t){e}; }}"))
+    for u in UN_ALL:
+        for o in BIN_ALL:
+            t1, t2 = rng.choice(TYPES), rng.choice(TYPES)
+            progs.append((f"upair;{u};{o};{t1};{t2}", f"{{ {t1} a = ({t1}) {src_for(t1)}; {t2} b = ({t2}) {src2_for(t2)}; RddV = (int64_t)({u}(a {o} b)); RyyV = (int64_t)(({u}a) {o} b); }}"))
+    return progs
+
+
 def cast_matrix():
     """C03: all source/target pairs in the conversion contexts that need no sub-routine."""
     progs = []
@@ -221,6 +239,18 @@ def cast_matrix():
         # boolean source
         progs.append((f"boolsrc|{t1}", f"{{ {t1} a = (RsV > RtV); RyyV = (int64_t) a; }}"))
         progs.append((f"boolcast|{t1}", f"{{ RyyV = (int64_t)(({t1})(RsV == RtV)); }}"))
+    return progs
+
+
+def chained_assignments(rng: random.Random, full: bool):
+    """C03: `c = b = a` converts a to the type of b and that value to the type of c"""
+    progs = []
+    for t1 in TYPES:
+        for t2 in TYPES:
+            t3s = TYPES if full else [rng.choice(["int64_t", "uint64_t"]), rng.choice(TYPES)]
+            for t3 in t3s:
+                progs.append((f"chainasg|{t1}|{t2}|{t3}", f"{{ {t1} a = ({t1}) {src_for(t1)}; {t2} b; {t3} c; c = b = a; RyyV = (int64_t) c; ReV = b; }}"))
+            progs.append((f"chainreg|{t1}|{t2}", f"{{ {t1} a = ({t1}) {src_for(t1)}; {t2} b; RddV = b = a; }}"))
     return progs
 
 
@@ -309,7 +339,7 @@ def stmt_programs(rng: random.Random, n: int):
     items.append(dict(name="order;raw", text="{ ReV = RsV; ReV = ReV + 1; RddV = ReV; RxV = RxV + ReV; RxV = RxV * 2; ; { } { ; } }", vkey="order:raw"))
     items.append(dict(name="order;chain", text="{ int32_t a; int32_t b; a = b = RsV + 1; ReV = a + b; }", exports=[("a", "int32_t"), ("b", "int32_t")], vkey="order:chain"))
     # (4) random statement trees
-    g = G(rng, avoid=("calls", "postfix", "stmtexpr", "const_cond", "suffix"))
+    g = G(rng, avoid=("stmtexpr", "const_cond", "suffix"))
     for i in range(n):
         text, ex = g.program(depth=rng.choice([2, 3, 4]), nstmts=(2, 6), types=["int32_t", "uint32_t", "int64_t", "uint64_t", "int32_t", "uint8_t", "int16_t"])
         items.append(dict(name=f"tree{i}", text=text, exports=ex, vkey="tree"))
@@ -360,6 +390,12 @@ def hybrid_programs(rng: random.Random, n: int):
     T("se;botharms", "{ int32_t a = RsV; int32_t b = RtV; ReV = (RuuV > 0) ? ({ a = a + 1; a; }) : ({ b = b + 1; b; }); RddV = a + b; }", [("a", "int32_t"), ("b", "int32_t")])
     T("se;usr", "{ ReV = (RsV > 100) ? ({ set_usr_field(bundle, HEX_REG_FIELD_USR_OVF, 1); 100; }) : RsV; }")
     T("se;init", "{ int32_t a = ({ ReV = RsV; RsV + 1; }); RddV = a; }", a32)
+    for vt in TYPES:
+        T(f"se;else;{vt}", f"{{ int32_t a = 0; {vt} b = ({vt}) RtV; ReV = (RsV == 0) ? 1 : ({{ a = 7; b; }}); RddV = a; }}", a32, vk="se;narrow")
+        T(f"se;then;{vt}", f"{{ int32_t a = 0; {vt} b = ({vt}) RtV; ReV = (RsV > 5) ? ({{ a = a + 3; b; }}) : 9; RddV = a; }}", a32, vk="se;narrow")
+        T(f"se;cast;{vt}", f"{{ int32_t a = 0; ReV = (RsV > 5) ? ({{ a = 1; ({vt}) RtV; }}) : RtV; RddV = a; }}", a32, vk="se;narrow")
+        T(f"post;val;{vt}", f"{{ {vt} b = ({vt}) RsV; RddV = b++; ReV = b--; RyyV = b; }}", [("b", vt)], vk="post;types")
+        T(f"call;ret;{vt}", f"{{ {vt} b = ({vt}) RsV; ReV = (RtV > 0) ? clz32(b) : clo32(b); RddV = clz64(b); }}", [("b", vt)], vk="call;types")
     # random mixtures: 0..4 hybrids
     g = G(rng, avoid=("stmtexpr", "const_cond", "mem"))
     for i in range(n):
@@ -482,10 +518,12 @@ def fold_programs(rng: random.Random, n: int):
         for a in small:
             T(f"foldu;{op};{a}", f"{{ RddV = {op}({a}); RyyV = ({op}{a}) + RuuV; }}", vk=f"foldu:{op}")
             T(f"foldu2;{op};{a}", f"{{ RddV = {op}{op}({a}); ReV = sizeof({op}{a}); }}", vk=f"foldu2:{op}")
-    for op in CMPS:
-        for _ in range(max(6, n // 12)):
-            a, b = rng.choice(small + ["-1", "-5", "-(1U)"]), rng.choice(small + ["-1"])
-            T(f"foldc;{op};{a};{b}", f"{{ ReV = ({a} {op} {b}); RddV = ({a} {op} {b}) ? RuuV : RvvV; }}", vk=f"foldc:{op}")
+    lefts = ["-1", "-5", "0", "5", "-(1U)", "~0U", "-(5U)", "(0xffffffff + 1)", "0x7fffffff", "0x80000000", "-1LL", "~0ULL", "(2147483647 + 1)", "sizeof(RsV)", "(1 < 2)"]
+    rights = ["0", "-1", "5U", "0U", "0LL", "5LL", "-1LL", "1ULL", "0xffffffff", "0xffffffffU", "4294967296", "-(1U)", "~0U"]
+    for a in lefts:
+        for b in rights:
+            e = " + ".join(f"(({a} {op} {b}) << {k})" for k, op in enumerate(CMPS))
+            T(f"foldc;{a};{b}", f"{{ ReV = {e}; RddV = ({a} < {b}) ? RuuV : RvvV; RyyV = ({a} >= {b}) ? 1 : RuuV; }}", vk="foldc")
     # (3) constant ?: ; sizeof of every operand type
     for c in ("1", "0", "(2 > 1)", "(0x80000000 > 0)", "(1 ? 0 : 1)", "sizeof(RsV) == 4"):
         T(f"cond;{c}", f"{{ RddV = {c} ? RuuV : RvvV; ReV = {c} ? 3 : RsV; }}", vk="cond")
